@@ -4,7 +4,7 @@
    NoStageDrift, LatestIsHighest, AggregateInOrder, OutsideResolution, ConditionFromNewest) on every reachable state of the unrolling state
    machine for every document shape of the family (import stage, 1-2 looped components, body stages, with/without
    loopBindings and which component carries them, the binding naming the producer's stdout or a FILE of it with
-   :output / :ref / :copy, condition producer (a looped component or a separate one, in either
+   :output / :ref / :copy (the path written in the binding values or in the consumer's reference `inp/state.txt:<method>`), condition producer (a looped component or a separate one, in either
    document stage), replication inside the loop, names one of which
    ends in the other, the same document imported twice) up to MaxK >= 12 iterations; coverage guard on Iterate; the
    named deviation LexAgreesWithNumeric is run with the expectation of a violation (witness that the model reaches
@@ -748,6 +748,10 @@ def run(tier):
         "k <= %d for loop 1 (crosses 9 -> 10 -> 11%s), k <= %d for a second import of the same document" % (
             maxk, "; 19 -> 20 for the shapes imported at stage 1, 13 for the others" if thorough else "", maxk2),
         "documents outside the family (more than two looped components, nested loops, :copy/:link bindings) are not explored",
+        "with a Controller an unrolling is driven as the runtime does it: the condition producer of the newest iteration 'finishes' (its "
+        "condition file is written with True, its ComponentState is marked finished) and the harness does what finishedCheck does: look the "
+        "component up among the conditions the Controller registered and call _handle_condition_component_finished; at the end of a history "
+        "every loop's condition answers False (spec action Finish) and nothing more may be unrolled",
         "the Controller is built as in tests/test_control.py (ComponentState per node, initialise(stage 0)) and never run(); the order of the "
         "four inspection kinds rotates with the number of unrollings (the spec allows any order)",
         "an exception raised by the code under test while loading / unrolling / inspecting / observing a document of the family is a violation "
